@@ -100,10 +100,14 @@ impl Editor {
     pub fn key(&mut self, key: &Key2, adopt_word_next: Option<usize>) -> Option<String> {
         match key {
             Key2::Enter => {
+                // "EOL only occurs on Enter when the buffer is non-empty": a blank line is never
+                // submitted, whether typed or recalled from a damaged history file
                 let on_new = self.index >= self.history.len();
-                if on_new && self.line.iter().collect::<String>().trim().is_empty() {
-                    self.line.clear();
-                    self.cursor = 0;
+                if self.current().iter().collect::<String>().trim().is_empty() {
+                    if on_new {
+                        self.line.clear();
+                        self.cursor = 0;
+                    }
                     None
                 } else {
                     self.update_next();
